@@ -304,12 +304,20 @@ func c15World(t *testing.T, r *simcore.Run) any {
 		return false, nil
 	}
 	nrounds := 2 + tp.Intn(9, "rounds")
+	longGaps := tp.Bool(1, 3, "longgaps")
 	var hist []string
 	okRounds, errRounds := 0, 0
 	w.goSafe("driver", func() {
 		defer r.Finish()
 		for ; round < nrounds && r.Violation() == nil; round++ {
-			if r.Sleep(fmt.Sprintf("gap:%d", round), w.cli.Node, time.Duration(tp.Range(int64(100*time.Millisecond), int64(2500*time.Millisecond), "gap"))).Killed {
+			// rounds a fraction of a second to minutes apart (sync intervals are configurable; a
+			// client keeps its path however long ago its previous exchange was)
+			gap := time.Duration(tp.Range(int64(100*time.Millisecond), int64(2500*time.Millisecond), "gap"))
+			if longGaps {
+				gap = []time.Duration{3 * time.Second, 3*time.Second + 1, 5 * time.Second, 16 * time.Second, 64 * time.Second, 17 * time.Minute}[tp.Intn(6, "longgap")]
+				r.Probe("rounds-seconds-to-minutes-apart")
+			}
+			if r.Sleep(fmt.Sprintf("gap:%d", round), w.cli.Node, gap).Killed {
 				return
 			}
 			// offered paths this round
@@ -347,6 +355,17 @@ func c15World(t *testing.T, r *simcore.Run) any {
 			for i, c := range clients {
 				inIL[i] = c.InInterleavedMode()
 				prevFP[i] = c.InterleavedModePath()
+				if client.VerifSCIONPrevState != nil {
+					// from the client's record of its previous exchange, not from what its own
+					// accessors make of it: in interleaved mode = configured for it, and the last
+					// response it accepted (no reset since) was an interleaved one
+					ref, pth, il := client.VerifSCIONPrevState(c)
+					inIL[i] = c.InterleavedMode && ref != "" && il
+					prevFP[i] = ""
+					if inIL[i] {
+						prevFP[i] = pth
+					}
+				}
 				resets0[i] = filters[i].resets
 				calls0[i] = len(filters[i].calls)
 			}
@@ -506,6 +525,26 @@ func c15World(t *testing.T, r *simcore.Run) any {
 			}
 			hist = append(hist, fmt.Sprintf("%s used=%v", line, pathOf))
 			r.Log("%s used=%v", line, fmt.Sprint(pathOf))
+		}
+		// a second after the last round every per-path measurement has returned (their
+		// deadline was 400 ms): nothing of a round's own goroutines - senders whose result came
+		// after the deadline, the collector's drain - may be left behind
+		if r.Violation() != nil || r.Sleep("quiesce", w.cli.Node, time.Second).Killed {
+			return
+		}
+		left := ""
+		for _, g := range simcore.BubbleGoroutines() {
+			if containsAny(g, "core/client.MeasureClockOffsetSCION", "core/client.collectMeasurements") {
+				if len(g) > 700 {
+					g = g[:700]
+				}
+				left += g + "\n"
+			}
+		}
+		if left != "" {
+			r.Fail("C15", "round/goroutines-left", "goroutine(s) of a measurement round left a second after the last round:\n%s", left)
+		} else {
+			r.Probe("quiescent-after-rounds")
 		}
 	})
 	reason := r.Loop(5_000_000, 0)
